@@ -9,9 +9,9 @@
 From SV Require Export Model.Base Model.LeapArray Model.Breaker.
 Open Scope N_scope.
 
-Inductive cpt := CRead | CC2O | CO2H | CH2O | CH2C.
+Inductive cpt := CRead | CC2O | CO2H | CH2O | CH2C | COracle.
 Definition cpt_code (p : cpt) : N :=
-  match p with CRead => 7 | CC2O => 8 | CO2H => 9 | CH2O => 10 | CH2C => 11 end.
+  match p with CRead => 7 | CC2O => 8 | CO2H => 9 | CH2O => 10 | CH2C => 11 | COracle => 12 end.
 
 (** what the listeners and the threads write to the common log; [who] = 0 for the sequential
     prelude, thread index + 1 otherwise *)
@@ -27,6 +27,8 @@ Inductive cinstr :=
 | BRead                      (* try_pass: state read and deadline check *)
 | BCas                       (* from_open_to_half_open *)
 | BDone
+| BHook                      (* the exit hook of a probe entry that was rejected: Half-Open goes back to Open *)
+| BDoneBlocked               (* the build was rejected by a later slot *)
 | XBegin (err : bool)        (* on_completed: round trip, counters, totals *)
 | XRead1
 | XCasH2O (f : flag)
@@ -37,11 +39,13 @@ Inductive cinstr :=
 | CPoint (p : cpt)
 | CPointIf (f : flag) (p : cpt).
 
-Inductive ctop := KB | KX (err : bool).
+(** [KB other]: a build; [other] = a slot after the breaker slot rejects this entry *)
+Inductive ctop := KB (other : bool) | KX (err : bool).
 
 Definition compile_op (o : ctop) : list cinstr :=
   match o with
-  | KB => [BStart; CPoint CRead; BRead; CPointIf FWant CO2H; BCas; BDone]
+  | KB false => [BStart; CPoint CRead; BRead; CPointIf FWant CO2H; BCas; BDone]
+  | KB true => [BStart; CPoint CRead; BRead; CPointIf FWant CO2H; BCas; CPoint COracle; BHook; BDoneBlocked]
   | KX err =>
       [XBegin err; CPointIf FLive CRead; XRead1;
        CPointIf FHoBad CH2O; XCasH2O FHoBad;
@@ -56,7 +60,7 @@ Definition ccompile (ops : list ctop) : list cinstr := flat_map compile_op ops.
 Record cthr := mkCT {
   k_code : list cinstr;
   k_done : bool;
-  k_want : bool; k_hobad : bool; k_hook : bool; k_trip : bool; k_c2o : bool; k_ho2 : bool; k_live : bool;
+  k_want : bool; k_hobad : bool; k_hook : bool; k_trip : bool; k_c2o : bool; k_ho2 : bool; k_live : bool;      (* k_live: exit = the bucket was obtained; build = this build did Open -> Half-Open *)
   k_adm : bool;         (* build: admitted; exit: the thread held an entry *)
   k_bad : bool;
   k_rt : N;
@@ -108,13 +112,21 @@ Definition cexec (recheck : bool) (who : N) (st : cbs) (t : cthr) (i : cinstr) :
       if k_want t then
         if bstate_eqb (s_state st) Open && (negb recheck || (s_retry st <=? s_now st)) then
           (with_state st HalfOpen (s_retry st) (ETrans who Open HalfOpen (s_now st) (s_retry st)),
-           mkCT (k_code t) (k_done t) false false false false false false false true false 0 (k_starts t), None)
+           mkCT (k_code t) (k_done t) false false false false false false true true false 0 (k_starts t), None)
         else (st, mkCT (k_code t) (k_done t) false false false false false false false false false 0 (k_starts t), None)
       else (st, t, None)
   | BDone =>
       (with_log st (EBuild who (k_adm t)),
        mkCT (k_code t) (k_done t) false false false false false false false (k_adm t) false 0
             (if k_adm t then k_starts t else tl (k_starts t)), None)
+  | BHook =>
+      (* when_exit hook registered by from_open_to_half_open: the entry was blocked *)
+      if k_live t && bstate_eqb (s_state st) HalfOpen then
+        (with_state st Open (s_retry st) (ETrans who HalfOpen Open (s_now st) (s_retry st)), t, None)
+      else (st, t, None)
+  | BDoneBlocked =>
+      (with_log st (EBuild who false),
+       mkCT (k_code t) (k_done t) false false false false false false false false false 0 (tl (k_starts t)), None)
   | XBegin err =>
       match k_starts t with
       | [] => (st, mkCT (k_code t) (k_done t) false false false false false false false false false 0 [], None)
@@ -233,7 +245,7 @@ Fixpoint run_code (recheck : bool) (who : N) (st : cbs) (t : cthr) (code : list 
 Fixpoint prelude (recheck : bool) (st : cbs) (t : cthr) (ops : list pre_op) : cbs :=
   match ops with
   | [] => st
-  | PB :: tl => let '(st', t') := run_code recheck 0 st t (compile_op KB) in prelude recheck st' t' tl
+  | PB :: tl => let '(st', t') := run_code recheck 0 st t (compile_op (KB false)) in prelude recheck st' t' tl
   | PX err :: tl => let '(st', t') := run_code recheck 0 st t (compile_op (KX err)) in prelude recheck st' t' tl
   | PA dt :: tl => prelude recheck (cadvance st dt) t tl
   end.
